@@ -82,6 +82,8 @@ Ctor1(E, K) ==
   \cup { <<"newtype", "NTy", e>> : e \in E }
 
 Holder(T) == <<"dc", "H", << <<"f", T, <<"req">>, <<>> >>, <<"g", <<"opt", T>>, <<"val", None>>, <<>> >> >>, <<>> >>
+\* a nullable field whose default is a FALSY non-None value of the type (explicit null must still win)
+FalsyHolder(T, d) == <<"dc", "FH", << <<"f", T, <<"req">>, <<>> >>, <<"h", <<"opt", T>>, <<"val", d>>, <<>> >> >>, <<>> >>
 PlainHolder(T) == <<"dc", "PH", << <<"f", T, <<"req">>, <<>> >> >>, << <<"mixin", "plain">> >> >>
 
 FirstOf(s) == s[1]
